@@ -88,6 +88,11 @@ CHECKS = {
          'Refinement obligations enumerated by TLC over all 53 accelerator table entries x counter values (16 quick / all 256 thorough) x iteration counts and edge phases, DEC A: JR/JP x carry x A; real _read_port / CSimulator.load scenarios (near/limit/level/late/iff/block-end) compared with k plain spec steps on all registers incl. R and T, memory and player state; real tap2sna.main on bin2tap tapes (tap/pzx, 48K/128K) and custom-loader TZX tapes (relocated LD-BYTES with altered timing constants, turbo and headerless blocks, one per usable loop shape) under accelerator x accelerate-dec-a x pause x fast-load x cmio x python x polarity x first-edge (pairwise in quick, full product on small tapes in thorough): bit-identical inside the speed-up group, data bytes/PC/SP across fast-load and cmio.',
          'End to end is a sampled tape x configuration matrix; T is read through a wrapper around tap2sna.get_state (tap2sna writes a default T into the file); RAM compared as CRC-32 per 256-byte page; loads always pass --start (the PC reached is only defined with a stop address); pulses shorter than one sampling-loop period and zero-gap blocks are open known findings and excluded from the random generators.',
          'DESIGN.md §4 C13'),
+ 'C04': ('model_checking',
+         'TLA+ SubFix specification (reader state machine of the documented @*sub/@*fix, block, @org/@label/@keep/@bytes/@defb/@defs/@defw/@if semantics yielding layout, label table and images) model-checked on all small files; TLC-enumerated and TLC-simulated files plus a Python all-forms generator are rendered and run through the real skool2bin, skool2asm (output assembled by a reference resolver) and skool2html, and TLC judges ASM = bin = model and #PEEK = bin per mode and option vector',
+         'All 601 TLC-enumerated files with 0-2 directives of every flag combination (> | + / !, with/without label and instruction) on one instruction x modes; 130 (quick) / 1000 (thorough) TLC-simulated files x 12 skool2bin / 9 skool2asm modes x 6 / 18 base/case/-c option vectors; random all-instruction-form files (expressions, binary and character literals, all bases, address-valued operands, @label/@keep/@nowarn/@equ) x 4 modes x 18 vectors; #PEEK in ASM and HTML output against skool2bin --data.',
+         'Single instructions of the skool2asm output are assembled by skoolkit\'s own Assembler (trusted via C02) inside a reference resolver for ORG/EQU/labels; cases where the documentation leaves the tools free (an @org that is not first in an entry, operands naming an unlabelled instruction that moved, | after an unplaced instruction ...) are counted, not judged; three documented usages fail the #PEEK clause and are open findings.',
+         'DESIGN.md §4 C04'),
 }
 
 PENDING = {}
